@@ -19,31 +19,32 @@ import (
 const modulePath = "github.com/sassoftware/relic/v8"
 
 type Checker struct {
-	specDup error // a spec function / macro name defined twice
-	fieldRanges map[string][2]string // heap array name -> assumed [lo, hi] of a counter field (externs.spec `fieldrange`)
+	specDup      error                // a spec function / macro name defined twice
+	fieldRanges  map[string][2]string // heap array name -> assumed [lo, hi] of a counter field (externs.spec `fieldrange`)
 	anyHomeCache map[string][]anyHome
-	repo      string
-	verif     string
-	fset      *token.FileSet
-	prog      *ssa.Program
-	pkgs      map[string]*packages.Package
-	specFiles []*SpecFile
-	contracts map[string]*FuncContract // by full SSA function name
-	externs   []*FuncContract
-	specFuncs map[string]*SpecFunc
-	lemmas    []*Lemma
-	strs      map[string]int
-	strList   []string
-	typeIDs   map[string]int
-	closureOf map[string]*ssa.MakeClosure
-	cellCtr   int
-	qctr      int
-	havocCalls map[string]map[string]bool
-	externUsed map[string]*FuncContract
-	srcCache  map[string][]byte
-	sigCache  map[string]*specSigT
-	notes     []string
-	nonnil    map[string]bool
+	repo         string
+	verif        string
+	fset         *token.FileSet
+	prog         *ssa.Program
+	pkgs         map[string]*packages.Package
+	specFiles    []*SpecFile
+	contracts    map[string]*FuncContract // by full SSA function name
+	externs      []*FuncContract
+	specFuncs    map[string]*SpecFunc
+	lemmas       []*Lemma
+	strs         map[string]int
+	strList      []string
+	typeIDs      map[string]int
+	closureOf    map[string]*ssa.MakeClosure
+	cellCtr      int
+	qctr         int
+	havocCalls   map[string]map[string]bool
+	externUsed   map[string]*FuncContract
+	srcCache     map[string][]byte
+	sigCache     map[string]*specSigT
+	notes        []string
+	nonnil       map[string]bool
+	constGlobals map[*ssa.Package]map[*ssa.Global]*ssa.Const
 }
 
 func fullName(pkgPath, rel string) string {
@@ -506,4 +507,83 @@ func (x *Exec) entryOrEmpty() *State {
 		return x.entry
 	}
 	return &State{regs: map[ssa.Value]Value{}, cells: map[int]Value{}, cellOf: map[*ssa.Alloc]int{}, heap: map[string]Term{}, ghost: map[string]Value{}, inLoop: map[int]bool{}, loopPre: map[int]*State{}, top: tZero}
+}
+
+// constGlobal: an unexported package-level variable of basic type whose only write in its package is the constant
+// initializer in init and whose address is never taken is a constant in all but name; loads of it yield that constant.
+// (Only the declaring package can name an unexported variable, and its non-test files are all in the program.)
+func (ck *Checker) constGlobal(g *ssa.Global) *ssa.Const {
+	if g.Pkg == nil || g.Object() == nil || g.Object().Exported() {
+		return nil
+	}
+	if _, ok := g.Type().Underlying().(*types.Pointer).Elem().Underlying().(*types.Basic); !ok {
+		return nil
+	}
+	if ck.constGlobals == nil {
+		ck.constGlobals = map[*ssa.Package]map[*ssa.Global]*ssa.Const{}
+	}
+	m, ok := ck.constGlobals[g.Pkg]
+	if !ok {
+		m = map[*ssa.Global]*ssa.Const{}
+		bad := map[*ssa.Global]bool{}
+		var visit func(fn *ssa.Function)
+		seen := map[*ssa.Function]bool{}
+		visit = func(fn *ssa.Function) {
+			if fn == nil || seen[fn] {
+				return
+			}
+			seen[fn] = true
+			isInit := fn == g.Pkg.Func("init")
+			for _, b := range fn.Blocks {
+				for _, ins := range b.Instrs {
+					if st, ok := ins.(*ssa.Store); ok {
+						if sg, ok := st.Addr.(*ssa.Global); ok {
+							if c, isC := st.Val.(*ssa.Const); isC && isInit && m[sg] == nil && !bad[sg] {
+								m[sg] = c
+							} else {
+								bad[sg] = true
+							}
+							if vg, ok := st.Val.(*ssa.Global); ok {
+								bad[vg] = true
+							}
+							continue
+						}
+					}
+					if u, ok := ins.(*ssa.UnOp); ok && u.Op == token.MUL {
+						if _, ok := u.X.(*ssa.Global); ok {
+							continue
+						}
+					}
+					for _, op := range ins.Operands(nil) {
+						if op != nil && *op != nil {
+							if og, ok := (*op).(*ssa.Global); ok {
+								bad[og] = true
+							}
+						}
+					}
+				}
+			}
+			for _, an := range fn.AnonFuncs {
+				visit(an)
+			}
+		}
+		for _, mem := range g.Pkg.Members {
+			switch mm := mem.(type) {
+			case *ssa.Function:
+				visit(mm)
+			case *ssa.Type:
+				for _, t := range []types.Type{mm.Type(), types.NewPointer(mm.Type())} {
+					ms := ck.prog.MethodSets.MethodSet(t)
+					for i := 0; i < ms.Len(); i++ {
+						visit(ck.prog.MethodValue(ms.At(i)))
+					}
+				}
+			}
+		}
+		for bg := range bad {
+			delete(m, bg)
+		}
+		ck.constGlobals[g.Pkg] = m
+	}
+	return m[g]
 }
